@@ -764,8 +764,8 @@ C20_OPTS = {
     "web-seed": ["http://w1/x", "http://w2/y"],
     "http-seed": ["http://h1/z"],
     "private": True,
-    "source": "SRC",
-    "comment": "a comment",
+    "source": "Tracker #1",
+    "comment": "Season 2 disc #14 ; second = pressing: 100% [x]",
     "piece-length": "15",
     "align": True,
 }
@@ -1034,3 +1034,196 @@ def h_c11(tier, seed, hints):
 @replayer("C11")
 def r_c11(acc, case):
     _c11_case(acc, case)
+
+
+# =============================================================================================== C18
+def snapshot(root):
+    out = {}
+    for dp, dns, fns in os.walk(root):
+        rel = os.path.relpath(dp, root)
+        out[("d", rel)] = None
+        for fn in fns:
+            p = os.path.join(dp, fn)
+            with open(p, "rb") as fh:
+                out[("f", os.path.normpath(os.path.join(rel, fn)))] = hashlib.sha256(fh.read()).hexdigest()
+    return out
+
+
+def snap_diff(a, b):
+    added = sorted(str(k) for k in b if k not in a)
+    removed = sorted(str(k) for k in a if k not in b)
+    changed = sorted(str(k) for k in a if k in b and a[k] != b[k])
+    return added, removed, changed
+
+
+def _c18_case(acc, case):
+    from torrentfile.cli import execute
+    kind = case["kind"]
+    with tempdir() as d:
+        work = os.path.join(d, "work")
+        os.makedirs(work)
+        name, tree = small_trees(0)[case.get("tree", 1)]
+        version = case.get("version", 1)
+        mf, payload = make_metafile(work, name, tree, version, announce=["http://t/a"], url_list=["http://w/b"])
+        if case.get("damage"):
+            # flip a byte in the first file, remove the last
+            files = sorted(p for p in (os.path.join(dp, f) for dp, _, fs in os.walk(payload) for f in fs)) if os.path.isdir(payload) else [payload]
+            with open(files[0], "r+b") as fh:
+                fh.write(b"\\xff")
+            if len(files) > 1:
+                os.remove(files[-1])
+        # bystanders that a sloppy implementation might clobber
+        for by in (".torrent", "torrentfile.log", name + ".torrent"):
+            with open(os.path.join(work, by), "wb") as fh:
+                fh.write(b"bystander " + by.encode())
+        if case.get("outdir"):
+            os.makedirs(os.path.join(work, "outdir"))
+            with open(os.path.join(work, "outdir", ".torrent"), "wb") as fh:
+                fh.write(b"bystander in the output directory")
+        os.chdir(work)
+        before = snapshot(d)
+        argv = [a.replace("{mf}", mf).replace("{payload}", payload).replace("{work}", work).replace("{rel_mf}", os.path.relpath(mf, work))
+                .replace("{rel_payload}", os.path.relpath(payload, work)) for a in case["argv"]]
+        err = None
+        try:
+            with quiet():
+                execute(list(argv))
+        except SystemExit as e:
+            err = f"SystemExit({e.code})"
+        except BaseException as e:      # noqa: BLE001
+            err = f"{type(e).__name__}: {e}"
+        import logging
+        for h in list(logging.getLogger().handlers):
+            try:
+                h.close()
+            except Exception:       # noqa: BLE001
+                pass
+            logging.getLogger().removeHandler(h)
+        sys.stdout, sys.stderr = sys.__stdout__, sys.__stderr__
+        after = snapshot(d)
+        added, removed, changed = snap_diff(before, after)
+        label = " ".join(case["argv"][:3])
+        if kind == "readonly":
+            if added or removed or changed:
+                acc.fail(f"C18:{case['cmd']}:modified-filesystem", case, f"{label}: added {added} removed {removed} changed {changed} (err={err})",
+                         "no change at all")
+        elif kind == "create":
+            exp = os.path.normpath(os.path.relpath(case["expect_out"].replace("{work}", work).replace("{name}", name), d))
+            if err:
+                acc.fail("C18:create:raised", case, err)
+            elif removed or changed or added != [str(("f", exp))]:
+                acc.fail("C18:create:not-exactly-one-file", case, f"added {added} removed {removed} changed {changed}", f"exactly one new file {exp}")
+        elif kind == "create-default":
+            exp = os.path.normpath(os.path.relpath(os.path.join(work, name + ".torrent"), d))
+            if err:
+                acc.fail("C18:create:raised", case, err)
+            elif removed or added or changed != [str(("f", exp))]:
+                acc.fail("C18:create:not-exactly-one-file", case, f"added {added} removed {removed} changed {changed}", f"only {exp} written")
+        elif kind == "create-over":
+            exp = os.path.normpath(os.path.relpath(mf, d))
+            if err:
+                acc.fail("C18:create:raised", case, err)
+            elif removed or added or changed != [str(("f", exp))]:
+                acc.fail("C18:create:not-exactly-one-file", case, f"added {added} removed {removed} changed {changed}", f"only {exp} rewritten")
+        elif kind == "rename-clobber":
+            if not (err and "FileExistsError" in err) or added or removed or changed:
+                acc.fail("C18:rename:clobbered-or-no-refusal", case, f"err={err} added {added} removed {removed} changed {changed}",
+                         "FileExistsError and nothing changed")
+        elif kind == "rename":
+            src = os.path.normpath(os.path.relpath(case["src"].replace("{work}", work), d))
+            dst = os.path.normpath(os.path.relpath(os.path.join(os.path.dirname(case["src"].replace("{work}", work)), name + ".torrent"), d))
+            ok = (not err and removed == [str(("f", src))] and added == [str(("f", dst))] and not changed
+                  and after.get(("f", dst)) == before.get(("f", src)))
+            if not ok:
+                acc.fail("C18:rename:wrong-effect", case, f"err={err} added {added} removed {removed} changed {changed}", f"{src} -> {dst}, same bytes")
+
+
+def _c18_cases(tier):
+    cases = []
+    for version in (1, 2, 3):
+        for tree in ((1,) if tier == "quick" else (0, 1, 2)):
+            for damage in (False, True):
+                for pre in ([], ["-q"], ["-v"]):
+                    for cmd, argv in (("recheck", ["recheck", "{mf}", "{payload}"]), ("recheck", ["check", "{rel_mf}", "{work}"]),
+                                      ("info", ["info", "{mf}"]), ("magnet", ["magnet", "{mf}"]), ("magnet", ["m", "{rel_mf}", "--meta-version", "0"])):
+                        if damage and cmd != "recheck":
+                            continue
+                        cases.append({"prop": "C18", "kind": "readonly", "cmd": cmd, "argv": pre + argv, "version": version, "tree": tree,
+                                      "damage": damage})
+    for version in ("1", "2", "3"):
+        cases.append({"prop": "C18", "kind": "create", "version": 1, "argv": ["create", "{payload}", "--meta-version", version, "-o", "{work}/out/new.torrent".replace("/out", "")],
+                      "expect_out": "{work}/new.torrent"})
+        cases.append({"prop": "C18", "kind": "create", "version": 1, "argv": ["-q", "create", "--meta-version", version, "--prog", "0", "-o", "{work}/sub.torrent", "{rel_payload}"],
+                      "expect_out": "{work}/sub.torrent"})
+        cases.append({"prop": "C18", "kind": "create-over", "version": 1, "argv": ["create", "{payload}", "--meta-version", version, "-o", "{mf}"]})
+        # no -o: the default output <cwd>/<name>.torrent exists as a bystander and is the one file that may change
+        cases.append({"prop": "C18", "kind": "create-default", "version": 1, "argv": ["create", "{payload}", "--meta-version", version, "--prog", "0"]})
+        cases.append({"prop": "C18", "kind": "create", "version": 1, "argv": ["create", "{payload}", "--meta-version", version, "-o", "{work}/outdir/"],
+                      "expect_out": "{work}/outdir/{name}.torrent", "outdir": True})
+        cases.append({"prop": "C18", "kind": "create", "version": 1, "argv": ["create", "{payload}", "--meta-version", version, "--magnet", "-o", "{work}/m.torrent"],
+                      "expect_out": "{work}/m.torrent"})
+    return cases
+
+
+@harness("C18")
+def h_c18(tier, seed, hints):
+    acc = Acc("C18", "whole-directory snapshots (names and SHA-256 of every file, with bystander files '.torrent', 'torrentfile.log', "
+              "'<name>.torrent' in the working directory) before and after recheck / info / magnet in all spellings (-q, -v, aliases, "
+              "relative paths, intact and damaged content), create (exactly one new file), rename (no clobber, same bytes)",
+              "3 versions x spellings x {intact, damaged}; create to new / existing output; rename with and without collision")
+    for case in _c18_cases(tier):
+        _c18_case(acc, case)
+        acc.case(json.dumps([case["kind"], case.get("cmd"), case["argv"], case.get("version"), case.get("damage")]),
+                 case if case["kind"] != "readonly" or case["argv"][0] == "-v" else None)
+    # rename
+    for case in ({"prop": "C18", "kind": "rename-clobber", "version": 1, "argv": ["rename", "{mf}x"], "pre_copy": True},):
+        pass
+    _c18_rename(acc)
+    return acc.result()
+
+
+def _c18_rename(acc):
+    from torrentfile.cli import execute
+    for sub, collide in (("", False), ("", True), ("store", False), ("store", True)):
+        with tempdir() as d:
+            work = os.path.join(d, "work")
+            os.makedirs(os.path.join(work, "store"))
+            name, tree = small_trees(0)[1]
+            mf, payload = make_metafile(work, name, tree, 1)
+            src = os.path.join(work, sub, "download_77.torrent")
+            os.replace(mf, src)
+            dst = os.path.join(work, sub, name + ".torrent")
+            if collide:
+                with open(dst, "wb") as fh:
+                    fh.write(b"an older metafile that must survive")
+            with open(os.path.join(work, "bystander.torrent"), "wb") as fh:
+                fh.write(b"x")
+            os.chdir(work)
+            before = snapshot(d)
+            err = None
+            try:
+                with quiet():
+                    execute(["rename", src if sub else os.path.relpath(src, work)])
+            except BaseException as e:      # noqa: BLE001
+                err = f"{type(e).__name__}"
+            after = snapshot(d)
+            added, removed, changed = snap_diff(before, after)
+            case = {"prop": "C18", "kind": "rename", "sub": sub, "collide": collide}
+            acc.case(("rename", sub, collide), case)
+            rs, rd = os.path.normpath(os.path.relpath(src, d)), os.path.normpath(os.path.relpath(dst, d))
+            if collide:
+                if err != "FileExistsError" or added or removed or changed:
+                    acc.fail("C18:rename:clobbered-or-no-refusal", case, f"err={err} added {added} removed {removed} changed {changed}",
+                             "FileExistsError, nothing changed")
+            else:
+                ok = not err and removed == [str(("f", rs))] and added == [str(("f", rd))] and not changed and after[("f", rd)] == before[("f", rs)]
+                if not ok:
+                    acc.fail("C18:rename:wrong-effect", case, f"err={err} added {added} removed {removed} changed {changed}", "moved, same bytes")
+
+
+@replayer("C18")
+def r_c18(acc, case):
+    if case["kind"] == "rename":
+        _c18_rename(acc)
+    else:
+        _c18_case(acc, case)
